@@ -327,8 +327,10 @@ ocp.set_der(v, a)
             widths = set([self.origins[i]["w"] for i in deps])
             assert len(widths)==1
             coeffs = ca.vcat([self.coeffs_epxr[i] for i in deps])
-            d = self.origins[deps[0]]["d"]
-            return self.t0+self.G[d]*self.T, (Jmul @ coeffs)+bs
+            # A lower member of a chain is a spline of lower degree, with its own Greville points
+            origin = self.origins[deps[0]]
+            G = get_greville_points(self.xi, origin["d"]-origin["i"])
+            return self.t0+G*self.T, (Jmul @ coeffs)+bs
         elif has_entries[1]:
             deps = ca.sum1(Js[1].sparsity()).T.row()
             vars = vvcat(self.signals.keys())[deps]
